@@ -20,22 +20,25 @@ registration) — the proof obligation that breaks is `signed_prims.failedServic
 namespace AquaProps.C03
 open Aqua Aqua.Exec Aqua.Air Aqua.Data Aqua.Trace Aqua.Json AquaProps
 
-/-- content ids of the call results in a trace, in order (`CallResult::get_cid`: executed scalar /
-stream values and failed calls; requests and unused values carry no signed id) -/
+/-- content ids a trace entry contributes to its owner's signature (`CallResult::get_cid` for executed
+scalar / stream values and failed calls; executed canon results; requests and unused values carry none) -/
+def entryCids : ExecutedState → List Cid
+  | .call cr => (match cr.getCid with | some c => [c] | none => [])
+  | .canon (.executed c) => [c]
+  | _ => []
+
 def callCids : Trace → List Cid
   | [] => []
-  | .call cr :: rest => (match cr.getCid with | some c => [c] | none => []) ++ callCids rest
-  | _ :: rest => callCids rest
+  | e :: rest => entryCids e ++ callCids rest
 
 theorem callCids_append (a b : Trace) : callCids (a ++ b) = callCids a ++ callCids b := by
   induction a with
   | nil => rfl
-  | cons x xs ih =>
-    cases x <;> simp [callCids, ih, List.append_assoc]
+  | cons x xs ih => simp [callCids, ih, List.append_assoc]
 
-/-- overwriting a `par` entry with a `par` entry does not touch the call results -/
-theorem callCids_set_par (t : Trace) (i : Nat) (l r l' r' : Nat) (h : t[i]? = some (.par l r)) :
-    callCids (t.set i (.par l' r')) = callCids t := by
+/-- overwriting an entry with one that contributes the same ids does not change the signed ids -/
+theorem callCids_set (t : Trace) (i : Nat) (old new : ExecutedState) (h : t[i]? = some old) (he : entryCids new = entryCids old) :
+    callCids (t.set i new) = callCids t := by
   induction t generalizing i with
   | nil => rfl
   | cons x xs ih =>
@@ -43,15 +46,17 @@ theorem callCids_set_par (t : Trace) (i : Nat) (l r l' r' : Nat) (h : t[i]? = so
     | zero =>
       simp only [List.getElem?_cons_zero, Option.some.injEq] at h
       subst h
-      simp [List.set, callCids]
+      simp [List.set, callCids, he]
     | succ j =>
       simp only [List.getElem?_cons_succ] at h
-      simp only [List.set]
-      cases x <;> simp [callCids, ih j h]
+      simp [List.set, callCids, ih j h]
 
-/-- every open par's inserter points at a `par` entry of the result trace (state-inserter invariant) -/
-def ParOK (th : TraceHandler) : Prop :=
-  ∀ f ∈ th.parStack, ∃ l r, th.keeper.resultTrace[f.inserterPos]? = some (.par l r)
+theorem entryCids_neutral {st : ExecutedState} (h : Neutral st) : entryCids st = [] := by
+  cases st <;> simp [Neutral] at h <;> rfl
+
+/-- every reserved position (open par / fold) holds a neutral entry (state-inserter invariant) -/
+def InsOK (th : TraceHandler) : Prop :=
+  ∀ p ∈ inserters th, ∃ st, th.keeper.resultTrace[p]? = some st ∧ Neutral st
 
 def resultCids (c : Ctx) : List Cid := callCids c.th.keeper.resultTrace
 
@@ -63,8 +68,8 @@ theorem ownOf_append (me : String) (a b : List (String × Cid)) : ownOf me (a ++
 
 structure Signed (c c' : Ctx) : Prop where
   me : c'.currentPeerId = c.currentPeerId
-  wf : ParOK c.th → ParOK c'.th
-  reg : ParOK c.th → ∃ ds : List (String × Cid),
+  wf : InsOK c.th → InsOK c'.th
+  reg : InsOK c.th → ∃ ds : List (String × Cid),
     resultCids c' = resultCids c ++ ds.map (·.2) ∧ c'.peerCids = c.peerCids ++ ownOf c.currentPeerId ds
 
 theorem signed_refl (c : Ctx) : Signed c c := ⟨rfl, id, fun _ => ⟨[], by simp, by simp [ownOf]⟩⟩
@@ -82,34 +87,63 @@ theorem signed_of_same {c c' : Ctx} (hme : c'.currentPeerId = c.currentPeerId) (
     (hp : c'.peerCids = c.peerCids) : Signed c c' :=
   ⟨hme, fun h => by rw [hth]; exact h, fun _ => ⟨[], by simp [resultCids, hth], by simp [ownOf, hp]⟩⟩
 
-theorem parOK_push {th : TraceHandler} (s : ExecutedState) (h : ParOK th) : ParOK (th.pushState s) := by
-  intro f hf
-  obtain ⟨l, r, hl⟩ := h f hf
-  refine ⟨l, r, ?_⟩
-  show (th.keeper.resultTrace ++ [s])[f.inserterPos]? = _
-  have hlt : f.inserterPos < th.keeper.resultTrace.length := by
-    rcases Nat.lt_or_ge f.inserterPos th.keeper.resultTrace.length with h' | h'
-    · exact h'
-    · rw [List.getElem?_eq_none h'] at hl; cases hl
-  rw [List.getElem?_append_left hlt]; exact hl
+theorem lt_of_getElem?_some {α} {l : List α} {i : Nat} {x : α} (h : l[i]? = some x) : i < l.length := by
+  rcases Nat.lt_or_ge i l.length with h' | h'
+  · exact h'
+  · rw [List.getElem?_eq_none h'] at h; cases h
 
-/-- pushing one call state: the ids grow by that state's id (if it has one) -/
-theorem resultCids_push (th : TraceHandler) (cr : CallResult) :
-    callCids (th.meetCallEnd cr).keeper.resultTrace =
-      callCids th.keeper.resultTrace ++ (match cr.getCid with | some c => [c] | none => []) := by
-  show callCids (th.keeper.resultTrace ++ [.call cr]) = _
-  rw [callCids_append]; simp [callCids]
+/-- a trace-handler transition (no content entry pushed): ids unchanged, reserved positions stay neutral -/
+theorem step_facts {th th' : TraceHandler} (hs : TraceStep th th') (hw : InsOK th) :
+    InsOK th' ∧ callCids th'.keeper.resultTrace = callCids th.keeper.resultTrace := by
+  cases hs with
+  | same ht hi =>
+    refine ⟨fun p hp => ?_, by rw [ht]⟩
+    rw [ht]; exact hw p (hi p hp)
+  | reserve ht hi =>
+    refine ⟨fun p hp => ?_, by rw [ht, callCids_append]; simp [callCids, entryCids]⟩
+    rw [ht]
+    rcases hi p hp with h1 | h1
+    · obtain ⟨st, hst, hn⟩ := hw p h1
+      exact ⟨st, by rw [List.getElem?_append_left (lt_of_getElem?_some hst)]; exact hst, hn⟩
+    · exact ⟨.par 0 0, by rw [h1]; simp, trivial⟩
+  | fill q st hq hn ht hi =>
+    obtain ⟨old, hold, hno⟩ := hw q hq
+    refine ⟨fun p hp => ?_, ?_⟩
+    · rw [ht]
+      obtain ⟨st', hst', hn'⟩ := hw p (hi p hp)
+      by_cases hpq : q = p
+      · subst hpq
+        exact ⟨st, by simp [List.getElem?_set, lt_of_getElem?_some hold], hn⟩
+      · exact ⟨st', by rw [List.getElem?_set_ne hpq]; exact hst', hn'⟩
+    · rw [ht]
+      exact callCids_set _ _ old st hold (by rw [entryCids_neutral hn, entryCids_neutral hno])
 
-/-- a context update that pushes the call state `cr`, registers `reg` and keeps the peer id -/
+theorem signed_of_step {c : Ctx} {th' : TraceHandler} (hs : TraceStep c.th th') : Signed c { c with th := th' } :=
+  ⟨rfl, fun hw => (step_facts hs hw).1, fun hw => ⟨[], by simp [resultCids, (step_facts hs hw).2], by simp [ownOf]⟩⟩
+
+theorem insOK_push {th : TraceHandler} (s : ExecutedState) (h : InsOK th) : InsOK (th.pushState s) := by
+  intro p hp
+  obtain ⟨st, hst, hn⟩ := h p hp
+  exact ⟨st, by show (th.keeper.resultTrace ++ [s])[p]? = _; rw [List.getElem?_append_left (lt_of_getElem?_some hst)]; exact hst, hn⟩
+
+/-- a context update that pushes one entry `e`, registers accordingly and keeps the peer id -/
+theorem signed_pushEntry {c c' : Ctx} (e : ExecutedState) (tag : String) (hme : c'.currentPeerId = c.currentPeerId)
+    (hth : c'.th = c.th.pushState e)
+    (hreg : c'.peerCids = c.peerCids ++ ownOf c.currentPeerId ((entryCids e).map fun x => (tag, x))) :
+    Signed c c' := by
+  refine ⟨hme, fun h => by rw [hth]; exact insOK_push _ h, fun _ => ?_⟩
+  refine ⟨(entryCids e).map fun x => (tag, x), ?_, hreg⟩
+  simp only [resultCids, hth]
+  show callCids (c.th.keeper.resultTrace ++ [e]) = _
+  rw [callCids_append]
+  simp [callCids, List.map_map, Function.comp_def]
+
+/-- pushing the call state `cr` -/
 theorem signed_push {c c' : Ctx} (cr : CallResult) (tag : String) (hme : c'.currentPeerId = c.currentPeerId)
     (hth : c'.th = c.th.meetCallEnd cr)
     (hreg : c'.peerCids = c.peerCids ++ ownOf c.currentPeerId ((match cr.getCid with | some x => [x] | none => []).map fun x => (tag, x))) :
-    Signed c c' := by
-  refine ⟨hme, fun h => by rw [hth]; exact parOK_push _ h, fun _ => ?_⟩
-  refine ⟨(match cr.getCid with | some x => [x] | none => []).map fun x => (tag, x), ?_, hreg⟩
-  simp only [resultCids, hth, resultCids_push]
-  congr 1
-  cases cr.getCid <;> simp
+    Signed c c' :=
+  signed_pushEntry (.call cr) tag hme hth hreg
 
 theorem recordCallCid_peerCids (c : Ctx) (p cid : String) :
     (c.recordCallCid p cid).peerCids = c.peerCids ++ ownOf c.currentPeerId [(p, cid)] := by
@@ -121,6 +155,14 @@ theorem recordCallCid_th (c : Ctx) (p cid : String) : (c.recordCallCid p cid).th
 theorem recordCallCid_me (c : Ctx) (p cid : String) : (c.recordCallCid p cid).currentPeerId = c.currentPeerId := by
   unfold Ctx.recordCallCid; split <;> rfl
 
+theorem recordCanonCid_peerCids (c : Ctx) (p cid : String) :
+    (c.recordCanonCid p cid).peerCids = c.peerCids ++ ownOf c.currentPeerId [(p, cid)] := by
+  unfold Ctx.recordCanonCid ownOf
+  by_cases h : p == c.currentPeerId <;> simp [h]
+theorem recordCanonCid_th (c : Ctx) (p cid : String) : (c.recordCanonCid p cid).th = c.th := by
+  unfold Ctx.recordCanonCid; split <;> rfl
+theorem recordCanonCid_me (c : Ctx) (p cid : String) : (c.recordCanonCid p cid).currentPeerId = c.currentPeerId := by
+  unfold Ctx.recordCanonCid; split <;> rfl
 
 /-- register `cid` for peer `p` (if it is the current peer) and push a result state carrying `cid` -/
 theorem signed_record_push (c c1 : Ctx) (p cid : String) (cr : CallResult) (hcr : cr.getCid = some cid)
@@ -132,7 +174,7 @@ theorem signed_record_push (c c1 : Ctx) (p cid : String) (cr : CallResult) (hcr 
   · simp [hcr, recordCallCid_peerCids, hpc, hme]
 
 theorem populateFromData_same {env : Env} {c c' : Ctx} {value : ValueRef} {ah : String} {t : Tetraplet} {pos : Nat}
-    {out : CallOutput} (h : populateFromData env c value ah t pos out = .ok c') :
+    {out : CallOutput} {src : ValueSource} (h : populateFromData env c value ah t pos out src = .ok c') :
     c'.currentPeerId = c.currentPeerId ∧ c'.th = c.th ∧ c'.peerCids = c.peerCids := by
   unfold populateFromData at h
   split at h
@@ -147,66 +189,93 @@ theorem populateFromData_same {env : Env} {c c' : Ctx} {value : ValueRef} {ah : 
       · cases h
     · cases h
     · cases h
-  · simp [unmodelled] at h
+  · obtain ⟨x, _, h2⟩ := res_bind_ok'' h
+    obtain ⟨y, _, h3⟩ := res_bind_ok'' h2
+    have := sameButStreams_addStreamValue h3
+    exact ⟨this.me, this.th, this.peerCids⟩
   · injection h with h; subst h; exact ⟨rfl, rfl, rfl⟩
   · simp [uncatchable] at h
+
+/-! ### compaction only rewrites generation numbers -/
+
+/-- what `update_generation` does to the handler: same reserved positions, same signed ids -/
+structure GenRel (h h' : TraceHandler) : Prop where
+  ins : inserters h' = inserters h
+  ok : InsOK h → InsOK h'
+  cids : InsOK h → callCids h'.keeper.resultTrace = callCids h.keeper.resultTrace
+
+theorem genRel_refl (h : TraceHandler) : GenRel h h := ⟨rfl, id, fun _ => rfl⟩
+theorem genRel_trans {a b c : TraceHandler} (h1 : GenRel a b) (h2 : GenRel b c) : GenRel a c :=
+  ⟨h2.ins.trans h1.ins, fun h => h2.ok (h1.ok h), fun h => (h2.cids (h1.ok h)).trans (h1.cids h)⟩
+
+theorem genRel_set {h : TraceHandler} {pos : Nat} {old new : ExecutedState} (hold : h.keeper.resultTrace[pos]? = some old)
+    (hnn : ¬ Neutral old) (he : entryCids new = entryCids old) :
+    GenRel h { h with keeper := { h.keeper with resultTrace := setAt h.keeper.resultTrace pos new } } := by
+  refine ⟨rfl, fun hw p hp => ?_, fun _ => callCids_set _ _ old new hold he⟩
+  obtain ⟨st, hst, hn⟩ := hw p hp
+  have hne : pos ≠ p := by
+    intro heq; subst heq
+    rw [hold] at hst; cases hst; exact hnn hn
+  exact ⟨st, by show (List.set _ pos new)[p]? = _; rw [List.getElem?_set_ne hne]; exact hst, hn⟩
+
+theorem genRel_updateGeneration {h h' : TraceHandler} {pos g : Nat} (hu : h.updateGeneration pos g = .ok h') : GenRel h h' := by
+  unfold TraceHandler.updateGeneration at hu
+  split at hu
+  · cases hu
+  · rename_i gs hold
+    cases hu
+    exact genRel_set hold (by simp [Neutral]) rfl
+  · rename_i cid g0 hold
+    cases hu
+    exact genRel_set hold (by simp [Neutral]) rfl
+  · cases hu
+
+theorem genRel_inner (g : Nat) : ∀ (vs : List ValueAggregate) (th th' : TraceHandler),
+    Stream.updateGenerations.go.inner g vs th = .ok th' → GenRel th th'
+  | [], th, th', h => by
+    unfold Stream.updateGenerations.go.inner at h
+    cases h; exact genRel_refl _
+  | v :: more, th, th', h => by
+    unfold Stream.updateGenerations.go.inner at h
+    split at h
+    · rename_i th1 hu
+      exact genRel_trans (genRel_updateGeneration hu) (genRel_inner g more th1 th' h)
+    · cases h
+    · cases h
+
+theorem genRel_go : ∀ (slices : List (List ValueAggregate)) (g : Nat) (th th' : TraceHandler),
+    Stream.updateGenerations.go slices g th = .ok th' → GenRel th th'
+  | [], g, th, th', h => by
+    unfold Stream.updateGenerations.go at h
+    cases h; exact genRel_refl _
+  | vs :: rest, g, th, th', h => by
+    unfold Stream.updateGenerations.go at h
+    split at h
+    · rename_i th1 hi
+      exact genRel_trans (genRel_inner g vs th th1 hi) (genRel_go rest (g + 1) th1 th' h)
+    · cases h
+    · cases h
+
+theorem genRel_compactify {s s' : Stream} {th th' : TraceHandler} (h : s.compactify th = .ok (s', th')) : GenRel th th' := by
+  unfold Stream.compactify at h
+  simp only at h
+  obtain ⟨t1, h1, h⟩ := res_bind_ok'' h
+  obtain ⟨t2, h2, h⟩ := res_bind_ok'' h
+  obtain ⟨t3, h3, h⟩ := res_bind_ok'' h
+  cases h
+  exact genRel_trans (genRel_go _ _ _ _ h1) (genRel_trans (genRel_go _ _ _ _ h2) (genRel_go _ _ _ _ h3))
+
+theorem signed_of_genRel {c c' : Ctx} (hme : c'.currentPeerId = c.currentPeerId) (hp : c'.peerCids = c.peerCids)
+    (hg : GenRel c.th c'.th) : Signed c c' :=
+  ⟨hme, hg.ok, fun hw => ⟨[], by simp [resultCids, hg.cids hw], by simp [ownOf, hp]⟩⟩
 
 /-- the primitives of the executor preserve `Signed` -/
 theorem signed_prims : ExecPrims Signed where
   pre := ⟨signed_refl, signed_trans⟩
   ctl := fun c c' h => signed_of_same h.me h.th h.peerCids
-  thCallStart := by
-    intro c met th' h
-    obtain ⟨ht, hp⟩ := meetCallStart_frame h
-    refine ⟨rfl, fun hw => ?_, fun _ => ⟨[], by simp [resultCids, ht], by simp [ownOf]⟩⟩
-    intro f hf
-    rw [show ({ c with th := th' } : Ctx).th = th' from rfl] at hf ⊢
-    rw [hp] at hf; rw [ht]; exact hw f hf
-  thParStart := by
-    intro c th' h
-    obtain ⟨ht, f0, hp, hpos⟩ := meetParStart_frame h
-    refine ⟨rfl, fun hw => ?_, fun _ => ⟨[], ?_, by simp [ownOf]⟩⟩
-    · intro f hf
-      rw [show ({ c with th := th' } : Ctx).th = th' from rfl] at hf ⊢
-      rw [hp] at hf; rw [ht]
-      rcases List.mem_cons.mp hf with rfl | hf'
-      · exact ⟨0, 0, by rw [hpos]; simp⟩
-      · obtain ⟨l, r, hl⟩ := hw f hf'
-        have hlt : f.inserterPos < c.th.keeper.resultTrace.length := by
-          rcases Nat.lt_or_ge f.inserterPos c.th.keeper.resultTrace.length with h' | h'
-          · exact h'
-          · rw [List.getElem?_eq_none h'] at hl; cases hl
-        exact ⟨l, r, by rw [List.getElem?_append_left hlt]; exact hl⟩
-    · simp [resultCids, ht, callCids_append, callCids]
-  thParEnd := by
-    intro c t th' h
-    obtain ⟨f, rest, hs, hcase⟩ := meetParSubgraphEnd_frame h
-    rcases hcase with ⟨_, ht, f', hp, hpos⟩ | ⟨_, hp, l', r', ht⟩
-    · refine ⟨rfl, fun hw => ?_, fun _ => ⟨[], by simp [resultCids, ht], by simp [ownOf]⟩⟩
-      intro g hg
-      rw [show ({ c with th := th' } : Ctx).th = th' from rfl] at hg ⊢
-      rw [hp] at hg; rw [ht]
-      rcases List.mem_cons.mp hg with rfl | hg'
-      · rw [hpos]; exact hw f (by rw [hs]; exact List.mem_cons_self)
-      · exact hw g (by rw [hs]; exact List.mem_cons_of_mem _ hg')
-    · refine ⟨rfl, fun hw => ?_, fun hw => ⟨[], ?_, by simp [ownOf]⟩⟩
-      · intro g hg
-        rw [show ({ c with th := th' } : Ctx).th = th' from rfl] at hg ⊢
-        rw [hp] at hg; rw [ht]
-        obtain ⟨l, r, hl⟩ := hw g (by rw [hs]; exact List.mem_cons_of_mem _ hg)
-        by_cases hi : f.inserterPos = g.inserterPos
-        · refine ⟨l', r', ?_⟩
-          have hlt : g.inserterPos < c.th.keeper.resultTrace.length := by
-            rcases Nat.lt_or_ge g.inserterPos c.th.keeper.resultTrace.length with h' | h'
-            · exact h'
-            · rw [List.getElem?_eq_none h'] at hl; cases hl
-          rw [hi]; simp [List.getElem?_set, hlt]
-        · exact ⟨l, r, by rw [List.getElem?_set_ne hi]; exact hl⟩
-      · obtain ⟨l, r, hl⟩ := hw f (by rw [hs]; exact List.mem_cons_self)
-        simp only [resultCids, List.map_nil, List.append_nil]
-        show callCids th'.keeper.resultTrace = _
-        rw [ht]
-        exact callCids_set_par _ _ l r l' r' hl
+  thCallStart := fun c _ th' h => signed_of_step (step_meetCallStart h)
+  thParStart := fun c th' h => signed_of_step (step_meetParStart h)
+  thParEnd := fun c _ th' h => signed_of_step (step_meetParSubgraphEnd h)
   pushRequest := fun c s => signed_push (.requestSentBy s) "" rfl rfl (by simp [CallResult.getCid, ownOf])
   failedService := by
     intro env t ah sr c
@@ -215,14 +284,19 @@ theorem signed_prims : ExecPrims Signed where
   serviceResult := by
     intro env result t ah out c c' h
     unfold updServiceResult at h
-    obtain ⟨⟨cr, c1⟩, h1, h2⟩ := res_bind_ok' h
+    obtain ⟨⟨cr, c1⟩, h1, h2⟩ := res_bind_ok'' h
     cases h2
     cases out with
     | none =>
       simp only [populateFromPeerServiceResult] at h1
       injection h1 with h1; injection h1 with hcr hc; subst hcr; subst hc
       exact signed_push _ t.peerPk rfl rfl (by simp [CallResult.getCid, ownOf])
-    | stream n p => simp [populateFromPeerServiceResult, unmodelled] at h1
+    | stream n p =>
+      simp only [populateFromPeerServiceResult] at h1
+      obtain ⟨c2, h2, h3⟩ := res_bind_ok'' h1
+      injection h3 with h3; injection h3 with hcr hc; subst hcr; subst hc
+      have hs := sameButStreams_addStreamValue h2
+      exact signed_record_push c c2 _ _ _ rfl hs.me hs.th hs.peerCids
     | scalar name =>
       simp only [populateFromPeerServiceResult, bind, Res.bind] at h1
       split at h1
@@ -236,7 +310,7 @@ theorem signed_prims : ExecPrims Signed where
     exact signed_record_push c _ _ _ _ rfl rfl rfl rfl
   dropResult := fun key c => signed_of_same rfl rfl rfl
   prevExecutedBind := by
-    intro env c value ah t pos out c' h
+    intro env c value ah t pos out src c' h
     obtain ⟨h1, h2, h3⟩ := populateFromData_same h
     exact signed_of_same h1 h2 h3
   prevExecuted := by
@@ -257,6 +331,48 @@ theorem signed_prims : ExecPrims Signed where
     · cases h
     · cases h
   remote := fun t c _ => signed_push _ "" rfl rfl (by simp [CallResult.getCid, ownOf, updRemoteCall])
+  streamUpd := fun c c' h => signed_of_same h.me h.th h.peerCids
+  thApStart := fun c _ th' h => signed_of_step (step_meetApStart h)
+  pushAp := fun c => signed_pushEntry (.ap [generationStub]) "" rfl rfl (by simp [entryCids, ownOf])
+  thCanonStart := fun c _ th' h => signed_of_step (step_meetCanonStart h)
+  canonTrack := by
+    intro env stream pos peerId c
+    unfold updCanonTrack
+    exact signed_of_same rfl rfl rfl
+  canonFinish := by
+    intro name cs cid reg c c' h
+    unfold updCanonFinish at h
+    obtain ⟨sc, _, h2⟩ := res_bind_ok'' h
+    injection h2 with h2; subst h2
+    refine signed_pushEntry (.canon (.executed cid)) reg ?_ ?_ ?_
+    · simp [recordCanonCid_me]
+    · simp [recordCanonCid_th, TraceHandler.meetCanonEnd]
+    · simp [entryCids, recordCanonCid_peerCids]
+  canonPushRequest := fun c sender => signed_pushEntry (.canon (.requestSentBy sender)) "" rfl rfl (by simp [entryCids, ownOf])
+  canonRemote := fun c peerId _ => signed_pushEntry (.canon (.requestSentBy c.currentPeerId)) "" rfl rfl (by simp [entryCids, ownOf])
+  foldCount := fun c => signed_of_same rfl rfl rfl
+  thFoldOp := by
+    intro c th' h
+    cases h with
+    | foldStart id h => exact signed_of_step (step_meetFoldStart h)
+    | iterationStart id pos h => exact signed_of_step (step_meetIterationStart h)
+    | iterationEnd id h => exact signed_of_step (step_meetIterationEnd h)
+    | backIterator id h => exact signed_of_step (step_meetBackIterator h)
+    | generationEnd id h => exact signed_of_step (step_meetGenerationEnd h)
+    | foldEnd id h => exact signed_of_step (step_meetFoldEnd h)
+  scopeEnd := by
+    intro name c c' h
+    unfold Ctx.streamScopeEnd at h
+    split at h
+    · cases h
+    · split at h
+      · cases h
+      · split at h
+        · rename_i hc
+          injection h with h; subst h
+          exact signed_of_genRel rfl rfl (genRel_compactify hc)
+        · cases h
+        · cases h
 
 abbrev finalCtx (env : Env) (fuel : Nat) (script : Instr) (prev cur : DataIn) (p : RunParams)
     (results : List (String × CallServiceResult)) : Ctx := (runExec env fuel script prev cur p results).2
@@ -272,7 +388,7 @@ theorem C03_own_results_signed (env : Env) (fuel : Nat) (script : Instr) (prev c
       callCids (finalCtx env fuel script prev cur p results).th.keeper.resultTrace = ds.map (·.2) ∧
       (finalCtx env fuel script prev cur p results).peerCids = ownOf p.currentPeerId ds := by
   have h := exec_rel signed_prims env fuel script (initCtx prev cur p results)
-  have hw : ParOK (initCtx prev cur p results).th := by intro f hf; cases hf
+  have hw : InsOK (initCtx prev cur p results).th := by intro f hf; cases hf
   obtain ⟨ds, h1, h2⟩ := h.reg hw
   have e1 : resultCids (initCtx prev cur p results) = [] := rfl
   have e2 : (initCtx prev cur p results).peerCids = [] := rfl
@@ -286,8 +402,8 @@ theorem C03_exec_signed (env : Env) (fuel : Nat) (script : Instr) (c : Ctx) : Si
   exec_rel signed_prims env fuel script c
 
 /-- the state-inserter invariant is kept by every run: open pars always point at `par` entries -/
-theorem C03_par_inserters_valid (env : Env) (fuel : Nat) (script : Instr) (c : Ctx) (h : ParOK c.th) :
-    ParOK (exec env fuel script c).2.th := (exec_rel signed_prims env fuel script c).wf h
+theorem C03_par_inserters_valid (env : Env) (fuel : Nat) (script : Instr) (c : Ctx) (h : InsOK c.th) :
+    InsOK (exec env fuel script c).2.th := (exec_rel signed_prims env fuel script c).wf h
 
 /-! ## the CID stores: items are keyed by the hash of their content, references are present -/
 
